@@ -12,7 +12,7 @@ def register(PROPS):
                  'included into the driver) equal the calendar value, hence each other; echs_instant_lt_p/le_p/eq_p agree with the '
                  'reference order in which an all-day instant precedes every time of its day and a whole-second instant precedes every '
                  'millisecond of its second.  Day level: complete for diff and order (all ordered pairs of days, thorough); add is complete '
-                 'for |delta| <= 1500 days and strided beyond (see bound).  What the daemon is really armed for: in the embedded echsd (engine E2, harness/daemon) a one-shot task is queued for every day of 2020..2040 (thorough: 1971..2099), '
+                 'for |delta| <= 1500 days and strided beyond (see bound).  A duration with a sub-day part added to an ALL-DAY instant (mode dayfrac, directly and via echs_event_range, what `echse unroll --format %e\' shows for a DATE event with DURATION:P1DT12H) gives an all-day instant again, on a calendar day that is less than a day away from the true elapsed time (base + floor(d) .. base + ceil(d) days), and the difference of that sum and the base is that whole number of days.  What the daemon is really armed for: in the embedded echsd (engine E2, harness/daemon) a one-shot task is queued for every day of 2020..2040 (thorough: 1971..2099), '
                  'once as a DATE and once at a second of the day that moves with the date, and libev\'s armed time is read back: it must be that very second (own civil arithmetic), for the DATE a second of that day.',
         'note': 'The millisecond level is structured, not complete: 7 times of day (+4 whole-second, + all-day) on both sides of every '
                 'month boundary and leap day.  The inverse clauses add(a,diff(b,a))=b and diff(add(a,d),a)=d follow from the two '
@@ -21,24 +21,25 @@ def register(PROPS):
         'rule': 'a case is one base day / month boundary / (year, month) / day whose partner values are looped inside; evaluations count '
                 'the inputs (instant pairs of one kind, (instant,duration) pairs, field combinations, conversions), all distinct by '
                 'construction; non-trivial = pairs whose two instants lie in different months (days), differ at all (intraday), every '
-                '(instant,duration) pair (durs), field combinations with at least one field out of its range (fixup), every conversion '
+                '(instant,duration) pair (durs, dayfrac), field combinations with at least one field out of its range (fixup), every conversion '
                 'except t=0 (epoch, tstamp)',
         'bound': {
             'quick': 'days: every day 1901-01-01..2099-12-31 x delta in {0, +-1..+-400, +-k*365, +-k*366, +-k*1461 (all k in range), first day, last day}, '
                      'all-day and whole-second kinds; intraday: 24 instants around each of the 2436 month boundaries/leap days x those of the 12 '
                      'boundaries on either side + first + last; durs: the same instants x 33 durations (1 ms .. 36525 d, incl. 2^31 and 2^32 ms) of both signs; '
                      'fixup: 199 years x m 1..24 x d 1..62 x (H 0..48 | all-day) x M {0,59,60,119} x S {0,59,60,63} x ms {0,999,1000,1022,all-sec}; '
-                     'epoch (both library directions) and tstamp: every day x seconds {0,1,43199,43200,86399} (+ all-day, .000/.999 ms for tstamp)',
+                     'epoch (both library directions) and tstamp: every day x seconds {0,1,43199,43200,86399} (+ all-day, .000/.999 ms for tstamp); dayfrac: the all-day instants on both sides of the 2436 month boundaries/leap days x (w days + r ms), w in {0,1,2,27..31,59,60,365,366,1461,36524}, r in {1,999,1000,59999,60000,3599999,3600000,43199999,43200000,43200001,86399000,86399999}, both signs, two entry points (3.1 million inputs)',
             'thorough': 'days: ALL ordered pairs of days 1901..2099 (72684^2) for diff and order in both kinds; add for every |delta| <= 1500 d and '
                         'beyond that every 3rd delta (all-day kind) / every 25th delta (whole-second kind); intraday: every ordered pair of boundaries '
                         '(24x24 instants within 12 boundaries, 10x10 beyond); epoch both directions and tstamp: EVERY second of 1901-2099; '
-                        'durs and fixup as in quick',
+                        'durs, dayfrac and fixup as in quick',
         },
         'drivers': [
             D('c08_instant', ['mode=days', 'deltas=quick'],
               ['mode=days', 'deltas=all', 'addmax=1500', 'addstride=3', 'addstride2=25', '--deadline', '540'], label='days'),
             D('c08_instant', ['mode=intraday', 'span=12'], ['mode=intraday', 'span=all', '--deadline', '540'], label='intraday'),
             D('c08_instant', ['mode=durs'], label='durs'),
+            D('c08_instant', ['mode=dayfrac'], label='allday-subday'),
             D('c08_instant', ['mode=fixup'], label='fixup'),
             D('c08_instant', ['mode=epoch', 'secs=3'], ['mode=epoch', 'secs=all', '--deadline', '540'], label='epoch'),
             D('c08_tstamp', ['secs=5'], ['secs=all', '--deadline', '540'], label='tstamp'),
@@ -50,7 +51,7 @@ def register(PROPS):
         'assumptions': [
             'years 1901-2099 only (every 4th year is leap there); results that would leave the range are not judged',
             'arithmetic is judged between instants of one kind only (all-day with all-day, whole-second with whole-second, millisecond with millisecond); '
-            'durations added to all-day instants are whole days, to whole-second instants whole seconds',
+            'durations added to all-day instants are whole days, to whole-second instants whole seconds (modes days, intraday, durs); for an all-day instant plus a duration with a sub-day part neither instant.h nor the README says to which side the remainder is dropped (today: toward the base day for both signs), so mode dayfrac accepts either neighbouring day and only demands an all-day calendar day within one day of the true elapsed time; in mode dayfrac, once an input of a (sign, magnitude) class has failed in a case the remaining inputs of that class are left out of that case and counted (a wrong day count makes a single call walk millions of months); on a tree without such a failure nothing is left out',
             'fixup inputs have m >= 1 and d >= 1 (only additive overflow, as the function documents)',
             'echs_instant_to_epoch / epoch_to_echs_instant are judged on timed instants only: the library maps an all-day instant to the END of its day, '
             'the daemon to its start; both readings are defensible, so all-day is left out for the library and taken as 00:00:00 UTC for the daemon (what it does today)',
